@@ -59,6 +59,22 @@ func runC14(rc *RC) {
 	var held []*heldSnapshot
 	full := obsOpts{}
 	editsAfterSnapshot := 0
+	// one run in three keeps coming back to one area, relation or collection:
+	// added, tagged (searchable keys copy it up), replaced by a different
+	// one under the same id, with snapshots taken in between
+	focused := rc.Pct(33)
+	var focus b6.FeatureID
+	if focused {
+		t := []b6.FeatureType{b6.FeatureTypeArea, b6.FeatureTypeArea, b6.FeatureTypeRelation, b6.FeatureTypeCollection}[rc.Draw(4)]
+		if id, ok := g.freeID(t); ok && rc.Pct(60) {
+			focus = id
+		} else if ids := g.sortedIDs(t); len(ids) > 0 {
+			focus = ids[rc.Draw(len(ids))]
+		} else {
+			focused = false
+		}
+		rc.Knob("focus-feature-type", int(t))
+	}
 	checkHeld := func(h *heldSnapshot, step int, what string) bool {
 		now := Observe(h.w, ids, full)
 		h.checks++
@@ -87,6 +103,9 @@ func runC14(rc *RC) {
 			}
 		}
 		o := g.genOp(mix)
+		if focused && rc.Pct(50) {
+			o = c14FocusOp(rc, g, focus)
+		}
 		rc.Case(o.String())
 		var err error
 		if !rc.Guard(name+"/panic", func() { err = o.apply(w) }) {
@@ -134,6 +153,35 @@ func runC14(rc *RC) {
 	if len(held) >= 2 {
 		rc.Probe("snapshot-nested>=2")
 	}
+}
+
+// c14FocusOp draws an edit of the focus feature: a replacement (or the
+// first addition) by a freshly drawn feature of its type, or a tag edit.
+func c14FocusOp(rc *RC, g *cityGen, focus b6.FeatureID) op {
+	old := g.specs[focus]
+	if old == nil || rc.Pct(40) {
+		var s *fspec
+		switch focus.Type {
+		case b6.FeatureTypeArea:
+			s = g.areaSpec(focus)
+		case b6.FeatureTypeRelation:
+			s = g.relationSpec(focus, false)
+		default:
+			s = g.collectionSpec(focus)
+		}
+		if old != nil && rc.Pct(50) {
+			s.Tags = append([]tagKV(nil), old.Tags...)
+		} else {
+			s.Tags = g.someTags(2)
+		}
+		rc.Probe("focus-feature-replaced")
+		return op{Kind: "add", Spec: s}
+	}
+	if len(old.Tags) > 0 && rc.Pct(25) {
+		return op{Kind: "removetag", ID: focus, Key: old.Tags[rc.Draw(len(old.Tags))].K}
+	}
+	k := g.tagKey(false, rc.Pct(50))
+	return op{Kind: "addtag", ID: focus, Key: k, Val: g.tagValue(k)}
 }
 
 // c14TagsOverlay: the tags-only overlay world.
